@@ -101,7 +101,7 @@ static void task_g711 (int sub)
 			double maxlevel = (double) levels.back () ;
 			bool okq ;
 			if (fabs (xin) >= maxlevel) okq = fabs ((double) d) == maxlevel && ((d < 0) == (xin < 0)) ;
-			else okq = fabs (fabs (xin) - fabs ((double) d)) <= w / 2 + slack + (t >= T_FLOAT ? 2 : 0) && ((d < 0) == (xin < 0) || fabs (xin) <= w / 2 + slack + 2) ;
+			else okq = fabs (fabs (xin) - fabs ((double) d)) <= w / 2 + slack + (t >= T_FLOAT ? 2 : 0) && (d == 0 || (d < 0) == (x < 0)) ;	// sign-magnitude coding: the sign of the level is the sign of the input (mu-law has a zero level, A-law has none)
 			if (!okq)
 			{	report (c, failr ("g711_encode_outside_interval", std::string (nm) + " " + stype_name [t] + " input " + std::to_string (x) + " -> code " + std::to_string (code) + " decodes to " + std::to_string (d))) ; return ; }
 			if (d < prev) { report (c, failr ("g711_encode_not_monotone", std::string (nm) + " " + stype_name [t] + " input " + std::to_string (x))) ; return ; }
